@@ -22,7 +22,9 @@ RULE = ("pairs (base, current) of JSON objects: 60% 'current' derived from 'base
         "replace a leaf by its Python-== twin 1/True/1.0, 0/False/0.0/-0.0, dict<->leaf, nested edit, key reorder), 40% independent; "
         "keys from an alphabet with '.', '', backslashes, unicode, '_adds'; thorough tier additionally enumerates ALL pairs of "
         "objects in two small scopes; arbitrary delta blobs with adversarial path strings for apply_delta; file-level "
-        "scenarios (write_snapshot_auto / read_snapshot / rm / corrupt) in scratch directories. A case is non-trivial when "
+        "scenarios (write_snapshot_auto / read_snapshot by etag and by path / load_latest_snapshot / rm / corrupt / the REAL writer "
+        "killed at a scripted FS call of the atomic body or sidecar write, leaving its real temp files / foreign look-alike files "
+        "'<stem>.json.bak|.tmp|.1|.swp…') in scratch directories; a killed write exists for the model iff its os.replace happened. A case is non-trivial when "
         "the delta is non-empty or a fallback/raise branch is taken; distinct by canonical JSON of the case")
 ASSUMPTIONS = [
     "payloads are JSON trees as produced by json.loads (dicts with string keys, no aliasing between sub-objects, no lone surrogates)",
@@ -452,6 +454,10 @@ class Auto(Component):
     budget = {"quick": 300, "thorough": 5000, "search": 5000}
     scratch: Optional[str] = None
     ETAGS = ["e0", "e1", "e2", "é.x"]
+    FOREIGN_SUFFIX = [".bak", ".tmp", ".1", ".swp", ".orig", ".json", ".abc12345", ".meta.bak", "~"]
+    FOREIGN_BODY = [b"", b"{\"schema\":\"snapshot:v1\",\"mode\":\"fu",
+                    b"{\"codec\":\"none\",\"etag_to\":\"zz\",\"level\":0,\"mode\":\"full\",\"schema\":\"snapshot:v1\"}\n{\"foreign\":true}",
+                    b"{\"foreign\":true,\"version_etag\":\"stolen\"}"]
     GARBAGE = [b"", b"{", b"not json\nstill not", b"\xff\xfe\x00", b"{\"schema\":\"snapshot:v1\"}\n{\"a\": [1, "]
 
     def gen(self, rng, i):
@@ -488,10 +494,26 @@ class Auto(Component):
             else:
                 steps.append(["loadf", et])
 
+        def kill_script():
+            # the k-th FS call of the atomic writer dies (Crash, a BaseException: no cleanup runs); `short:n` entries make
+            # raw writes partial, so empty, partial and complete temps are all left behind
+            return ["ok"] * rng.choice([0, 1, 2, 3, 3, 4, 5, 6, 7, 8, 9, 10, 12, 15, 18, 21, 24, 27, 30]) \
+                + [f"short:{rng.choice([1, 10, 50])}"] * rng.choice([0, 0, 1, 2, 4]) + ["crash"]
+
+        def foreign(et):
+            steps.append(["foreign", rng.choice(["full", "full", "delta"]), et, rng.randrange(len(self.FOREIGN_SUFFIX)),
+                          rng.randrange(len(self.FOREIGN_BODY))])
+
         def rand_step():
             r = rng.random()
             et = rng.choice(ETAGS)
-            if r < 0.4:
+            if r < 0.12:
+                ef = rng.choice(ETAGS + [None]) if rng.random() < 0.7 else None
+                steps.append(["kill", ef, et, pay(), rng.random() < 0.6, kill_script()])
+                reads(et)
+            elif r < 0.18:
+                foreign(et)
+            elif r < 0.4:
                 ef = rng.choice(ETAGS + [None, ""]) if rng.random() < 0.9 else None
                 steps.append(["auto", ef, et, pay(), rng.random() < 0.75])
                 if rng.random() < 0.6:
@@ -503,7 +525,33 @@ class Auto(Component):
             else:
                 steps.append(["corrupt", rng.choice(["full", "full", "delta"]), et, rng.randrange(len(self.GARBAGE))])
 
-        if rng.random() < 0.65:
+        r0 = rng.random()
+        if r0 < 0.3:
+            # scripted skeleton: the FIRST write of baseline e0 is killed mid-way (or foreign look-alike files lie around);
+            # every reader and the next delta writer must behave as if that write never happened
+            e0, e1 = rng.sample(ETAGS, 2)
+            for _ in range(rng.choice([0, 0, 1, 2])):
+                foreign(rng.choice([e0, e1]))
+            if rng.random() < 0.8:
+                steps.append(["kill", None, e0, enc(payloads[0]), False, kill_script()])
+            else:
+                foreign(e0)
+            for _ in range(rng.choice([1, 2, 3])):
+                reads(e0)
+            steps.append(["auto", e0, e1, pay(), True])
+            reads(e1)
+            if rng.random() < 0.5:
+                steps.append(["auto", None, e0, enc(payloads[0]), False])
+                if rng.random() < 0.5:
+                    steps.append(["kill", e0, e1, pay(), True, kill_script()])
+                else:
+                    steps.append(["auto", e0, e1, pay(), True])
+                reads(e1)
+                steps.append(["rm", "full", e0])
+                reads(e1)
+            for _ in range(rng.choice([0, 1, 3])):
+                rand_step()
+        elif r0 < 0.75:
             # scripted skeleton: full baseline, delta on top, then a fault on the baseline
             e0, e1 = rng.sample(ETAGS, 2)
             steps.append(["auto", None, e0, enc(payloads[0]), rng.random() < 0.3])
@@ -596,6 +644,12 @@ class Auto(Component):
                         out.append(self._load(d, self._fname(d, "delta", st[1])))
                     elif st[0] == "loadf":
                         out.append(self._load(d, self._fname(d, "full", st[1])))
+                    elif st[0] == "kill":
+                        out.append(self._killed_write(d, st))
+                    elif st[0] == "foreign":
+                        with open(self._fname(d, st[1], st[2]) + self.FOREIGN_SUFFIX[st[3]], "wb") as f:
+                            f.write(self.FOREIGN_BODY[st[4]])
+                        out.append(None)
                     elif st[0] == "rm":
                         with contextlib.suppress(FileNotFoundError):
                             os.unlink(self._fname(d, st[1], st[2]))
@@ -607,6 +661,10 @@ class Auto(Component):
         finally:
             logging.disable(logging.NOTSET)
             shutil.rmtree(d, ignore_errors=True)
+        if any(st[0] == "kill" for st in case["steps"]):
+            if len(self._kills) > 50000:
+                self._kills.clear()
+            self._kills[self._ckey(case)] = out
         return out
 
     @staticmethod
@@ -648,9 +706,60 @@ class Auto(Component):
     def _same_load(a: dict, b: dict) -> bool:
         return all(a.get(f) == b.get(f) for f in ("loaded", "version_etag", "state"))
 
+    def _killed_write(self, d: str, st: list) -> dict:
+        """the REAL write_snapshot_auto with the atomic writer dying at the scripted FS call (harness/lib/faults.py)."""
+        from pathlib import Path
+        from harness.lib import faults
+        from clematis.engine.snapshot import write_snapshot_auto
+        box: Dict[str, Any] = {}
+
+        def go():
+            box["ret"] = write_snapshot_auto(d, etag_from=st[1], etag_to=st[2], payload=dec(st[3]), delta_mode=st[4])
+
+        before = set(os.listdir(d))
+        r = faults.run_injected(go, Path(d), [], list(st[5]), record_hist=False)
+        if r["status"] == "returned":
+            pth, wrote = box["ret"]
+            with open(pth, "rb") as fh:
+                nlines = len(fh.read().decode("utf-8").splitlines())
+            return {"mode": "delta" if wrote else "full", "lines": nlines}
+        if r["status"] == "raised":
+            return {"raised": True}
+        reps = [t for t in r["trace"] if t[0] == "replace"]
+        left = sorted(set(os.listdir(d)) - before)
+        return {"crashed": True, "committed": bool(reps) and reps[0][1] == "ok",
+                "died_at": r["trace"][-1][0] if r["trace"] else "?", "left": len(left),
+                "left_sizes": sorted({"empty" if os.path.getsize(os.path.join(d, n)) == 0 else "nonempty" for n in left})}
+
+    _kills: Dict[str, List[Any]] = {}
+
+    @staticmethod
+    def _ckey(case) -> str:
+        import hashlib
+        return hashlib.sha1(json.dumps(case, sort_keys=True).encode()).hexdigest()
+
     def request(self, case):
+        # a killed write exists for the model iff the body's os.replace happened (ground truth from the real run)
+        if any(s[0] == "kill" for s in case["steps"]):
+            k = self._ckey(case)
+            if k not in self._kills:
+                self.impl(case)
+            outs = self._kills.get(k, [])
+            steps = []
+            for s_, o in zip(case["steps"], outs):
+                if s_[0] == "kill":
+                    if isinstance(o, dict) and o.get("crashed") and not o.get("committed"):
+                        steps.append(["rm", "full", "\u0000never-written"])
+                    else:
+                        steps.append(["auto"] + list(s_[1:5]))
+                elif s_[0] == "foreign":
+                    steps.append(["rm", "full", "\u0000never-written"])
+                else:
+                    steps.append(s_)
+            case = {"steps": steps}
         # `loadf` (load_latest_snapshot on a FULL file) is answered by the model's read of that file
-        return {"c": "delta.auto", "steps": [s[:3] if s[0] == "corrupt" else (["readp", "full", s[1]] if s[0] == "loadf" else s)
+        return {"c": "delta.auto", "steps": [s[:3] if s[0] == "corrupt" else (["readp", "full", s[1]] if s[0] == "loadf" else
+                                                                              (["rm", "full", "\u0000never-written"] if s[0] == "foreign" else s))
                                              for s in case["steps"]]}
 
     @staticmethod
@@ -667,6 +776,13 @@ class Auto(Component):
         impl_out = self._nolines(impl_out)
         if isinstance(impl_out, list) and isinstance(model_out, list) and len(impl_out) == len(model_out):
             impl_out, model_out = list(impl_out), list(model_out)
+            for i, st in enumerate(case["steps"]):
+                io = impl_out[i]
+                if st[0] == "kill" and isinstance(io, dict) and io.get("crashed"):
+                    # a write that died: exists for the model iff committed (then the model must have written, not raised)
+                    if io.get("committed") and not (isinstance(model_out[i], dict) and "mode" in model_out[i]):
+                        return f"step {i}: body committed before the crash but model answered {json.dumps(model_out[i])[:100]}"
+                    impl_out[i] = model_out[i] = "killed-write"
             for i, st in enumerate(case["steps"]):
                 if st[0] != "loadf" or not isinstance(model_out[i], dict):
                     continue
@@ -718,6 +834,23 @@ class Auto(Component):
         raw_out = impl_out
         impl_out = self._nolines(impl_out)
         for idx, (st, o) in enumerate(zip(case["steps"], impl_out)):
+            if st[0] == "foreign":
+                tags.add("foreign-lookalike-file")
+                continue
+            if st[0] == "kill" and isinstance(o, dict) and o.get("crashed"):
+                tags.add("kill:committed" if o.get("committed") else "kill:uncommitted:" + o.get("died_at", "?"))
+                for sz in o.get("left_sizes", []):
+                    tags.add("kill:left-temp-" + sz)
+                if o.get("committed"):
+                    ef, et, p, dm = st[1], st[2], st[3], st[4]
+                    if dm and ef and isinstance(full.get(ef), dict):
+                        delta[et] = (ef, p)
+                    else:
+                        full[et] = p
+                prev = None
+                continue
+            if st[0] == "kill":
+                st = ["auto"] + list(st[1:5])      # the script ran out / the call raised first: an ordinary write
             if st[0] == "auto" and isinstance(raw_out[idx], dict) and "lines" in raw_out[idx]:
                 res.append(("written_file_is_one_header_line_plus_one_payload_line", raw_out[idx]["lines"] == 2,
                             f"the file written for etag {st[2]!r} splits into {raw_out[idx]['lines']} str.splitlines() lines"))
